@@ -1,6 +1,7 @@
 package vuego
 
 import (
+	"errors"
 	"fmt"
 	"strings"
 
@@ -34,10 +35,15 @@ func (v *Vue) evalConditionExpr(ctx VueContext, expr string) (bool, error) {
 	}
 
 	// Try to evaluate as expr expression first (supports ==, !=, &&, ||, !, <, >, <=, >=, and function calls)
-	result, err := v.exprEval.Eval(expr, ctx.stack.EnvMap())
+	result, err := v.exprEval.Eval(expr, v.exprEnv(ctx, expr))
 	if err == nil {
 		// Successfully evaluated with expr - convert to boolean
 		return helpers.IsTruthy(result), nil
+	}
+	// (a registered function that fails inside the expression fails the render, as it does when
+	// the call is the whole condition)
+	if fe := (*funcCallError)(nil); errors.As(err, &fe) {
+		return false, fmt.Errorf("in expression '%s': %w", expr, err)
 	}
 
 	// If expr evaluation failed and expression starts with !, handle nil negation manually.
@@ -46,7 +52,7 @@ func (v *Vue) evalConditionExpr(ctx VueContext, expr string) (bool, error) {
 	if strings.HasPrefix(expr, "!") {
 		innerExpr := strings.TrimSpace(expr[1:])
 		// Try to evaluate inner expression (may return nil)
-		innerResult, innerErr := v.exprEval.Eval(innerExpr, ctx.stack.EnvMap())
+		innerResult, innerErr := v.exprEval.Eval(innerExpr, v.exprEnv(ctx, innerExpr))
 		if innerErr == nil {
 			// Successfully evaluated - convert nil to bool and negate
 			return !helpers.IsTruthy(innerResult), nil
@@ -208,7 +214,7 @@ func (v *Vue) evaluateNodeAsElement(ctx VueContext, node *html.Node, depth int) 
 			// Evaluate the bound attribute expression
 			// Use expression evaluator for templates to support literals and expressions
 			expr := strings.TrimSpace(attr.Val)
-			val, err := v.exprEval.Eval(expr, ctx.stack.EnvMap())
+			val, err := v.exprEval.Eval(expr, v.exprEnv(ctx, expr))
 			if err == nil {
 				// Expression evaluated successfully
 				ctx.stack.Set(boundName, val)
